@@ -34,8 +34,20 @@ func checkC07(c *core.Ctx) {
 			}
 			p.Nodes = []ref.Node{{Op: op, In: ids}}
 			root := len(in)
-			if wi == 1 {
+			if wi >= 1 {
 				p, root = withWeighting(p, root, 13)
+			}
+			if wi == 2 { // upstream elements cancel exactly
+				w := p.Leaves[len(p.Leaves)-1]
+				if len(w.V) < 2 {
+					return core.Skip()
+				}
+				for i := 0; i+1 < len(w.V); i += 2 {
+					w.V[i+1] = -w.V[i]
+				}
+				if len(w.V)%2 == 1 {
+					w.V[len(w.V)-1] = 0
+				}
 			}
 			v := gradCase(p, root, gradOpts{allowKF: true})
 			if !v.OK && !v.Skip {
@@ -44,13 +56,14 @@ func checkC07(c *core.Ctx) {
 			return v
 		})
 	}
+	targets = append(targets, []int{5}, []int{2, 4}, []int{4, 1, 5}, []int{33}, []int{3, 7})
 	for _, t := range targets {
 		if c.Expired() {
 			break
 		}
 		// explicit Broadcast: every source of every target
 		for _, src := range enum.BroadcastSources(t) {
-			for wi := 0; wi < 2; wi++ {
+			for wi := 0; wi < 3; wi++ {
 				run(fmt.Sprintf("broadcast/%v->%v/w%d", src, t, wi), ref.Op{K: "Broadcast", Shape: t}, [][]int{src}, 1, wi, ref.Size(src) != ref.Size(t))
 			}
 		}
@@ -58,7 +71,10 @@ func checkC07(c *core.Ctx) {
 		for _, pr := range enum.BroadcastPairs(t) {
 			for _, k := range ref.BroadcastingKinds {
 				for mask := 1; mask <= 3; mask++ {
-					for wi := 0; wi < 2; wi++ {
+					for wi := 0; wi < 3; wi++ {
+						if wi == 2 && mask != 3 {
+							continue
+						}
 						exp := (mask&1 != 0 && ref.Size(pr[0]) != ref.Size(t)) || (mask&2 != 0 && ref.Size(pr[1]) != ref.Size(t))
 						run(fmt.Sprintf("%s/%v,%v/m%d/w%d", k, pr[0], pr[1], mask, wi), ref.Op{K: k}, [][]int{pr[0], pr[1]}, mask, wi, exp)
 					}
